@@ -10,9 +10,14 @@ results, with the VPSC model of C01 as solver the final positions to 1e-9; the e
 should_align_with / can_align_with (Avoid/NudgeRelModel.v, proved symmetric in Avoid/NudgeRel.v) must reproduce every
 dumped REL record exactly, the extracted region collection seg_groups must reproduce the regions the code formed, and the
 checkpoint-limit oracle cp_limit_ok must accept the limits of every shiftable middle segment (a tree without H1b: relations
-only where H1's SEG record determines them, rel=partial, no pass records);
+only where H1's SEG record determines them, rel=partial, no pass records); COMPLETENESS of every pass (mem=, seeded change
+C10-6): the extracted route_members recomputed from the display route of EVERY orthogonal connector (AROUTE records; fixed-route
+connectors included) must be exactly the pass's segment list (ASEG records): members_covered + members_only, so that by
+C10_members_in_groups every positive-length route segment lying in the shift dimension is in some region;
 V: the verified region checker nudge_region_ok on every dumped region and the verified scene checker scene_ok on the real
-route() / displayRoute() of every connector."""
+route() / displayRoute() of every connector; connectors with a user-specified fixed route (scene op F, ConnRef::setFixedRoute;
+families 16-18 incl. later transactions with moveShape) are immovable in the scene checker (fixed_kept: displayed as given; their
+segments count as stuck / as channel walls, the movable segments overlapping them must end separated)."""
 import os, re, json, collections
 from concurrent.futures import ThreadPoolExecutor
 from vlib import common as C
@@ -37,15 +42,24 @@ def norm_scene(sc):
     sc['boxes'] = [tuple(b) for b in sc['boxes']]
     sc['pins'] = [tuple(b) for b in sc['pins']]
     sc['conns'] = [(c[0], tuple(c[1]), tuple(c[2])) for c in sc['conns']]
+    if 'fixed' in sc:
+        sc['fixed'] = {int(k): [tuple(q) for q in v] for k, v in sc['fixed'].items()}
+    if 'later' in sc:
+        sc['later'] = [[tuple(m) for m in ops] for ops in sc['later']]
+    if 'boxes0' in sc:                      # a replay file holds one transaction's view of the scene: back to the whole scene
+        sc['boxes'] = [tuple(b) for b in sc.pop('boxes0')]
+        sc.pop('txn', None)
     return sc
 
 
 def run_scenes(exe, drv, scenes):
-    """-> list of dict(scene, res (parsed harness output), regs (driver verdict per region), sv (scene verdict), err)"""
+    """-> list of dict(scene, res (parsed harness output), regs (driver verdict per region), sv (scene verdict), err);
+    a scene with later transactions gives one entry per transaction (L.scene_views)"""
     chunks = [scenes[i:i + CHUNK] for i in range(0, len(scenes), CHUNK)]
 
-    def one(ch):
-        rc, out, err, dt = C.sh([exe], input=''.join(L.scene_text(s) for s in ch), timeout=600)
+    def one(ch0):
+        rc, out, err, dt = C.sh([exe], input=''.join(L.scene_text(s) for s in ch0), timeout=600)
+        ch = [v for s in ch0 for v in L.scene_views(s)]
         sp = L.split_scenes(out)
         rs = L.parse_output(out)
         if rc != 0 or len(sp) != len(ch) or len(rs) != len(ch):
@@ -78,7 +92,7 @@ def replay_of(sc):
             'replay': 'printf "<scene_script>" | build/bin/c10_nudge-%s-*   (then ./check C10 --replay <this file>)' % FLAVOR}
 
 
-def classify_scene(sc, r, sv):
+def classify_scene(sc, r, sv, pvs=(), earlier=()):
     """known-finding classifier for a scene-level failure (predicates on the failing case, DESIGN 3.5).  EVERY failing
     clause of the scene checker must be explained by a predicate (every lost checkpoint, every overlapping pair); one
     unexplained item and the scene is reported as a violation."""
@@ -86,9 +100,19 @@ def classify_scene(sc, r, sv):
     o0, o3 = sc['opts'][0], sc['opts'][3]
     if sv.get('nseg') or sv.get('orth') or sv.get('clear'):
         return []
+    if sv.get('fixed'):
+        # a fixed route that is not displayed as given: every such connector must be explained by the finding "the middle
+        # segments of a fixed route are shiftable NudgingShiftSegments" (a dumped satisfied region moved a NON-fixed
+        # segment of that connector, in this or an earlier transaction of the scene (`earlier`); first / last points kept)
+        for cid in [int(c) for c in sv['fixed'].split(',') if c]:
+            if not L.fixed_route_middle_shifted(sc, r, cid, earlier):
+                return []
+        fps.append('fixed_route_middle_segment_shifted')
     if sv.get('ends'):
         if o0 != 1:
             return []
+        if any(int(c) in sc.get('fixed', {}) for c in sv['ends'].split(',') if c):
+            return []           # the end segments of a FIXED route are immovable under that option too (orthogonal.cpp:2178)
         fps.append('final_segment_nudging_moves_ends')
     if sv.get('cps') and o0 == 1:
         fps.append('final_segment_nudging_moves_ends')
@@ -117,6 +141,10 @@ def classify_scene(sc, r, sv):
             return []           # an unexplained lost checkpoint: no classifier may absorb the scene
         fps.append(why[0])
     if sv.get('pairs'):
+        if any(pv.get('mem') == 'DIFF' for pv in pvs):
+            # every explanation of an overlapping pair reads the dumped regions and presupposes that BOTH segments were
+            # members of their pass; with a route segment missing from a pass's segment list (mem=DIFF) none applies
+            return []
         why = []
         for a, b in (p.split('/') for p in sv['pairs'].split(',') if p):
             a, b = int(a), int(b)
@@ -174,11 +202,32 @@ def run(tier):
     n = 400 if tier == 'quick' else 4000
     rng = C.SplitMix64(res.seed ^ 0xC10)
     scenes = corpus() + [L.gen_scene(rng.fork(), i) for i in range(n)]
+    # fixed-route families 16-18 (seeded change C10-6) from their own stream, after the others (keeps the scenes above)
+    nf = 90 if tier == 'quick' else 900
+    rngf = C.SplitMix64(res.seed ^ 0xC106)
+    scenes += [L.gen_scene(rngf.fork(), n + i, family=16 + i % 3) for i in range(nf)]
     results = run_scenes(exe, drv, scenes)
     st = collections.Counter()
     st['hook_H1b'] = int(has_b)
     errors, corr_diffs, reported = [], [], 0
+    rep = collections.Counter()         # reported violations: at most 2 from the corpus and 3 from the generated scenes
+
+    def room(sc):
+        return rep['corpus' if str(sc['id']).startswith('corpus') else 'gen'] < (2 if str(sc['id']).startswith('corpus') else 3)
+
+    deferred = []                       # KNOWN-FINDING lines are printed after the VIOLATION lines
+
+    def known(o, fp):
+        if res.known_fingerprint(fp):
+            deferred.append((o, fp))
+        elif room(o['scene']):
+            if res.violation(o, fingerprint=fp):
+                took(o['scene'])
+
+    def took(sc):
+        rep['corpus' if str(sc['id']).startswith('corpus') else 'gen'] += 1
     samples = []
+    history = {}
     for x in results:
         sc = x['scene']
         if x.get('err'):
@@ -188,7 +237,7 @@ def run(tier):
         st['scenes'] += 1
         st['family:%d' % sc.get('family', -1)] += 1
         st['opts:' + ''.join(str(o) for o in sc['opts'])] += 1
-        if r['exc']:
+        if r['exc'] and not r['exc'].startswith('skipped-after-exception'):
             st['assertion_in_library'] += 1
             st['exc:' + r['exc'][:110]] += 1
         for g, d in zip(r['regions'], x['regs']):
@@ -219,10 +268,11 @@ def run(tier):
                           'region': L.region_json(g), 'driver': d['line']})
                 if fp:
                     st['known:' + fp] += 1
-                    res.violation(o, fingerprint=fp)
-                elif reported < 3:
+                    known(o, fp)
+                elif room(sc):
                     if res.violation(o):
                         reported += 1
+                        took(sc)
             elif d.get('gen') == 'DIFF' or d.get('trace') == 'DIFF' or d.get('vpsc') == 'DIFF' or d.get('rel') == 'DIFF':
                 corr_diffs.append({'scene_script': L.scene_text(sc), 'driver': d['line'], 'region': L.region_json(g)})
         for pv in x.get('pvs', []):
@@ -233,13 +283,28 @@ def run(tier):
             inner = [c for c in pv.get('cpl', '').split(',') if c and ':inner:' in c]
             st['cpl_corner'] += sum(1 for c in pv.get('cpl', '').split(',') if ':corner:' in c)
             st['cpl_inner'] += len(inner)
-            if pv.get('grp') == 'DIFF' or (inner and sc['opts'][0] == 0):
+            st['mem_' + pv.get('mem', '?')] += 1
+            if pv.get('grp') == 'DIFF' or pv.get('mem') == 'DIFF' or (inner and sc['opts'][0] == 0):
                 corr_diffs.append({'scene_script': L.scene_text(sc), 'driver': pv['line'],
                                    'what': 'pass-level correspondence (hook H1b): the regions formed by the code differ from the '
-                                           'partition the symmetric model computes from the whole segment list, or a shiftable '
+                                           'partition the symmetric model computes from the whole segment list, or (mem=DIFF) a '
+                                           'positive-length route segment of some connector lying in the shift dimension is in no '
+                                           'region / a listed segment is no route segment, or a shiftable '
                                            'segment is not limited by a checkpoint lying inside the adjoining route segment'})
+        for cid, given in sc.get('fixed', {}).items():
+            st['fixed_route_connectors'] += 1
+            raw = r['routes'].get(cid, {}).get('O')
+            if not r['exc'] and raw != [tuple(float(v) for v in p) for p in given]:
+                errors.append('scene %s: route() of fixed-route connector %d is not the route given to setFixedRoute' % (sc['id'], cid))
+        if sc.get('txn'):
+            st['later_transactions'] += 1
+        if sc.get('later'):
+            history.setdefault(sc['id'], [])
         if not r['exc'] and not r['done']:
             errors.append('scene %s: harness output incomplete' % sc['id'])
+        if r['exc'] and r['exc'].startswith('skipped-after-exception'):
+            st['transactions_skipped_after_exception'] += 1
+            continue
         if r['exc']:
             fp = exc_fingerprint(r['exc'])
             st['known:' + fp] += 1
@@ -247,42 +312,55 @@ def run(tier):
             o.update({'what': 'assertion failure / exception inside processTransaction (no nudging result)', 'exception': r['exc'],
                       'model_asserts': [d.get('assert') for d in x['regs'] if d.get('assert', '-') != '-']})
             if res.known_fingerprint(fp):
-                res.violation(o, fingerprint=fp)
-            elif reported < 3:
+                known(o, fp)
+            elif room(sc):
                 if res.violation(o, fingerprint=fp):
                     reported += 1
+                    took(sc)
             continue
         if sv.get('error'):
             errors.append(sv['line'])
         elif sv.get('ok') != '1':
             st['scene_checker_fail'] += 1
-            fps = classify_scene(sc, r, sv)
+            fps = classify_scene(sc, r, sv, x.get('pvs', ()), history.get(sc['id'], []))
             for f in fps:
                 st['known:' + f] += 1
             o = replay_of(sc)
             o.update({'what': 'verified scene checker scene_ok fails on the real routes', 'verdict': sv['line'],
-                      'routes': {str(k): v for k, v in r['routes'].items()}})
+                      'routes': {str(k): v for k, v in r['routes'].items()},
+                      'pass_correspondence_differences': [pv['line'] for pv in x.get('pvs', ())
+                                                          if pv.get('grp') == 'DIFF' or pv.get('mem') == 'DIFF'][:4]})
             if fps:
-                res.violation(o, fingerprint=fps[0])
-            elif reported < 3:
+                known(o, fps[0])
+            elif room(sc):
                 if res.violation(o):
                     reported += 1
+                    took(sc)
+        if sc.get('later'):
+            history[sc['id']].append(r)         # the results of the earlier transactions of a multi-transaction scene
         if len(samples) < 3 and len(r['regions']) >= 2 and any(len(g['iters']) > 1 for g in r['regions']):
             samples.append({'scene_script': L.scene_text(sc), 'regions': len(r['regions']), 'scene_verdict': sv['line'],
                             'region_verdicts': [d['line'] for d in x['regs']][:6]})
+    reported = rep['corpus'] + rep['gen']
     if reported == 0 and (not info['ok'] or corr_diffs or errors):
         res.violation({'what': 'proof obligation or model/implementation correspondence no longer checks; the verified region and scene '
                                'checkers found no failing input on %d scenes / %d regions' % (st['scenes'], st['regions']),
                        'broken_files': info.get('broken'), 'broken_lemmas': info.get('broken_lemmas'), 'forbidden': info.get('forbidden'),
                        'correspondence_differences': corr_diffs[:3], 'n_correspondence_differences': len(corr_diffs),
                        'machinery_errors': errors[:5], 'coq_log_tail': info['log'][-2500:] if not info['ok'] else ''}, no_input=True)
+    for (o, fp) in deferred:
+        res.violation(o, fingerprint=fp)
     res.cov.update({'evaluations': st['regions'], 'distinct_nontrivial': st['regions_multi_iteration'] + st['regions_reduced_sep'] + st['regions_unsatisfied'],
                     'rule': 'one evaluation = one nudging region (one VPSC problem) of the real library, dumped by hook H1 and replayed on the '
                             'extracted model; scenes from SplitMix64(seed): 1-5 lattice rectangles, 2-5 orthogonal connectors with clustered '
                             'endpoints (free points, pins), random nudging distance, all 32 combinations of the five nudging options, '
                             'checkpoints in three families; family 13/15: 2-3 collinear checkpoints inside one straight segment next to a '
                             'shiftable segment in a channel (with / without the unifying step); family 14: an end segment lying exactly on '
-                            'a rectangle edge along which another connector\'s middle segment runs, all id / creation orders; directed corpus '
+                            'a rectangle edge along which another connector\'s middle segment runs, all id / creation orders; families 16-18 '
+                            '(own stream, 90 / 900 scenes): connectors with a fixed route (setFixedRoute) - 16 a fixed route along the centre '
+                            'line of 1-3 corridors that Z-connectors\' middle segments are centred onto, 17 a staircase fixed route of 2-5 bends '
+                            'with connectors ending on / beside its lines, 18 family 16 + 1-2 later transactions moving a pinned box (one '
+                            'evaluation per transaction); directed corpus '
                             'first (corpus/c10_scenes.json); non-trivial = regions needing more than one solve, ending with a reduced '
                             'separation, or ending unsatisfied',
                     'exhaustive': False, 'samples': samples, 'traces_validated_against_impl': st['trace_ok'],
@@ -296,15 +374,18 @@ def replay(path):
     if 'scene' in j:
         exe = C.build_harness('c10_nudge', ['libavoid'], FLAVOR)
         drv = C.ocaml_build('c10', 'C10.v', 'c10_driver.ml', 'c10_model.ml')
-        x = run_scenes(exe, drv, [norm_scene(j['scene'])])[0]
-        if x.get('err'):
-            print(x['err'])
-            return 2
-        for d in x['regs'] + x.get('pvs', []):
-            print(d['line'])
-        print(x['sv']['line'])
-        bad = x['sv'].get('ok') != '1' or any(d.get('chk') == '0' or d.get('rel') == 'DIFF' for d in x['regs']) \
-            or any(pv.get('grp') == 'DIFF' for pv in x.get('pvs', []))
+        bad = False
+        for x in run_scenes(exe, drv, [norm_scene(j['scene'])]):
+            if x.get('err'):
+                print(x['err'])
+                return 2
+            if x['scene'].get('later'):
+                print('--- transaction %d' % x['scene'].get('txn', 0))
+            for d in x['regs'] + x.get('pvs', []):
+                print(d['line'])
+            print(x['sv']['line'])
+            bad = bad or x['sv'].get('ok') != '1' or any(d.get('chk') == '0' or d.get('rel') == 'DIFF' for d in x['regs']) \
+                or any(pv.get('grp') == 'DIFF' or pv.get('mem') == 'DIFF' for pv in x.get('pvs', []))
         return 1 if bad else 0
     return 0
 
@@ -332,19 +413,32 @@ META = {
                 'relations are symmetric (overlaps_sym, can_align_sym, should_align_sym) and overlaps_with means "the shift ranges share a '
                 'point" for properly overlapping extents; the modelled region collection is total, a permutation of the segment list, and '
                 'separates regions in both operand orders (seg_groups_separated); cp_limit_keeps (limits accepted by the checkpoint oracle '
-                'keep the checkpoint on the adjoining segment); soundness of the region checker and of the scene checker; and a refutation: `satisfied` does not imply the constraints because the code never '
+                'keep the checkpoint on the adjoining segment); nudge_immovable_member_post (an immovable member - first / last segment, '
+                'checkpoint segment, end segment of a FIXED route - of a satisfied nudging-stage region keeps its position exactly and every '
+                'non-exempt movable segment overlapping it ends >= the final, possibly reduced, sepDist from it on the side of the '
+                'processing order, to 1e-4+1e-10 for solver positions and +d for written positions within limits to d); '
+                'pass_members_complete + members_in_groups + groups_disjoint + members_only_sound (every positive-length segment of every '
+                'connector\'s display route lying in the shift dimension is an expected member; if the dumped list covers the expected '
+                'members each lies in exactly one region of the collection); soundness of the region checker and of the scene checker '
+                '(scene_spec now has sp_fixed: a fixed route is displayed as given, and fixed-route segments are immovable); and a refutation: `satisfied` does not imply the constraints because the code never '
                 'reads Constraint::unsatisfiable. PARTIAL: the solver is a hypothesis (C01), region grouping / ordering / channel limits are '
                 'inputs, whole scenes are only checked (verified checker), not proved.',
         'design_ref': 'DESIGN.md 5.10'},
     'level_note': 'Trusted: Coq kernel; the hand-written models Avoid/NudgeModel.v + Avoid/NudgeRelModel.v tied to the code by hooks H1 / H1b (guarded dump in '
                   'orthogonal.cpp) and an exact correspondence on every run (generated vs/cs/gapcs/potential constraints, per-iteration satisfied / ranges / '
                   'sepDist / rewritten gaps on the real solver results, final positions with the VPSC model of C01 to 1e-9, the three segment relations of '
-                  'every REL record, the partition of every pass\'s segment list into regions); extraction and OCaml/C++/Python '
+                  'every REL record, the partition of every pass\'s segment list into regions, the completeness of every pass\'s segment '
+                  'list against the routes of all orthogonal connectors incl. fixed routes: mem=); extraction and OCaml/C++/Python '
                   'drivers; exact-rational model of binary64 (weights 0.00001, 0.001 and the 0.0001 tolerance are the exact binary64 values). '
                   'Modelled not verified: VPSC solver (Section hypothesis = property C01). Inputs (dumped data): shared-path '
                   'set, linesort / PtOrderMap order (and its mergeWith under nudgeOrthogonalSegmentsConnectedToShapes), buildOrthogonalChannelInfo; the checkpoint '
                   'limits of buildOrthogonalNudgingSegments are checked by an oracle (cp_limit_ok), not modelled. The scene-level statement (no movable overlap '
                   'in a wide-enough channel, ends / checkpoints / segment count / orthogonality / obstacle-freeness kept) is decided by a verified '
-                  'checker on real outputs, i.e. validation. Known findings (KNOWN_FINDINGS.txt) are classified by predicates on the failing case.',
+                  'checker on real outputs, i.e. validation. Known findings (KNOWN_FINDINGS.txt) are classified by predicates on the failing case; '
+                  'no overlap classifier applies to a scene with a pass whose segment list is incomplete (mem=DIFF), the finding '
+                  'final_segment_nudging_moves_ends never to a fixed-route connector. Seeded change C10-6 (fixed-route connectors skipped by '
+                  'buildOrthogonalNudgingSegments): caught by corpus-fixed-route-corridor / -min and by families 16-18 (DESIGN 9.13); HEAD finding '
+                  'fixed_route_middle_segment_shifted (middle segments of a fixed route are shiftable). Precondition of the membership model: '
+                  'segmentPenalty != 0 (all generated scenes).',
     'technique': 'Coq proof over a hand-written region model + hook-based exact correspondence + verified region/scene checkers on real outputs',
 }
